@@ -2529,9 +2529,11 @@ def run(ctx):
         progs = [program_from_replay(json.load(open(ctx.replay)))]
         corpus, gen = progs, []
     else:
-        nvec = 6 if ctx.quick else 8
-        corpus = load_corpus(nvec)
-        nprog = 4 if ctx.quick else 90
+        # count-based limits only (the machine is shared): quick = corpus on 4 vectors + 2 generated
+        # programs (48 entry functions) on 5 vectors
+        nvec = 5 if ctx.quick else 8
+        corpus = load_corpus(4 if ctx.quick else 8)
+        nprog = 2 if ctx.quick else 60
         rng = vlib.SplitMix(ctx.seed)
         gen = [program_from_seed("gen%d" % i, rng.fork("prog%d" % i).s, nvec) for i in range(nprog)]
     t0 = time.time()
